@@ -239,6 +239,9 @@ PROPS["C14"]["tasks"] = PROPS["C14"]["tasks"] + ["SequentialRunner._generate_ses
 # the session's execution switch consulted AFTER the hooks): the per-order blocks of _handle_orders are dependencies of C01-C04, C08, C19 as well
 for _p in ("C01", "C02", "C03", "C04", "C08", "C19"):
     PROPS[_p]["tasks"] = PROPS[_p]["tasks"] + [t for t in RUNNER_ELEMS if t not in PROPS[_p]["tasks"]]
+PROPS["C18"]["tasks"] = PROPS["C18"]["tasks"] + ["census:json_extends-call-sites"]
+# round 8: the built-in events hand rewritten prices to `_add_order`; the side-dependent rounding happens there and nowhere else (C19 depends on what the hooks write)
+PROPS["C19"]["tasks"] = PROPS["C19"]["tasks"] + ["OrderMistakeShock.hooked_before_order", "PriceLimitRule.hooked_before_order", "PriceLimitRule.get_limited_price"]
 from .census import CALLERS as _CALLERS
 for _g, (_ps, _r, _t) in _CALLERS.items():
     for _p in _ps:
